@@ -369,6 +369,93 @@ pub open spec fn prog_error(esc: Escape) -> Error {
 """
 
 
+LEMMAS = r"""
+// =========================================================================================
+// L-escape: consequences of the unit contracts for ANY nesting depth (lemmas over contracts).
+// Hypothesis h_scoped is exactly  V-scoped.ensures (a block runs its sequence in a pushed scope
+// and forwards its signal)  composed with  V-ctl.ensures of eval_stmts_with_scope_stack.
+// =========================================================================================
+pub uninterp spec fn pushed(w: W) -> W;
+pub open spec fn h_scoped() -> bool {
+    forall|w: W, b: Block| out(#[trigger] sem_scoped(w, Seq::empty(), b).0) == spec_stmts(pushed(w), b@, 0).0
+}
+// `s` is `inner` wrapped in n bare blocks (each holding exactly that one statement)
+pub open spec fn wraps(s: Stmt, inner: Stmt, n: nat) -> bool
+    decreases n
+{
+    if n == 0 { s == inner } else {
+        s matches Stmt::Block{block} && block@.len() == 1 && wraps(block@[0], inner, (n - 1) as nat)
+    }
+}
+pub open spec fn push_n(w: W, n: nat) -> W
+    decreases n
+{
+    if n == 0 { w } else { push_n(pushed(w), (n - 1) as nat) }
+}
+proof fn lemma_singleton_sequence(w: W, b: Seq<Stmt>)
+    requires b.len() == 1,
+    ensures spec_stmts(w, b, 0).0 == spec_stmt(w, b[0]).0,
+{
+    let (o, w1) = spec_stmt(w, b[0]);
+    assert(spec_stmts(w1, b, 1) == (Some(Escape::None), w1));
+}
+// L-escape.1  whatever a statement signals (break / continue / return v / nothing / failure) is
+// what it signals from inside any number of enclosing bare blocks
+pub proof fn lemma_signal_crosses_blocks(w: W, s: Stmt, inner: Stmt, n: nat)
+    requires h_scoped(), wraps(s, inner, n),
+    ensures spec_stmt(w, s).0 == spec_stmt(push_n(w, n), inner).0,
+    decreases n
+{
+    if n > 0 {
+        match s {
+            Stmt::Block{block} => {
+                assert(spec_stmt(w, s).0 == out(sem_scoped(w, Seq::empty(), block).0));
+                lemma_singleton_sequence(pushed(w), block@);
+                lemma_signal_crosses_blocks(pushed(w), block@[0], inner, (n - 1) as nat);
+            },
+            _ => {},
+        }
+    }
+}
+// L-escape.2  a `break` that reaches the body of a `while` stops exactly that loop: the loop
+// statement itself signals nothing, so the enclosing sequence goes on with its next statement
+pub proof fn lemma_break_stops_innermost_while(w: W, cond: Expr, body: Block, k: nat)
+    requires
+        while_prefix(w, cond, body, k) is Some,
+        ({
+            let c = while_prefix(w, cond, body, k)->0;
+            let (b, w1) = sem_bool(c, cond);
+            b == Ok::<bool, Error>(true) && (sem_scoped(w1, Seq::empty(), body).0 matches Ok(Escape::Break{loc}))
+        }),
+    ensures
+        spec_while(w, cond, body).0 == Some(Escape::None),
+{
+    lemma_while_stop_here(w, cond, body, k);
+}
+// L-escape.3  a `return v` that reaches the body of a loop leaves the loop unchanged (same value),
+// to be consumed only by the call boundary (unit V-call)
+pub proof fn lemma_return_crosses_while(w: W, cond: Expr, body: Block, k: nat, value: SourcedValue, loc: Location)
+    requires
+        while_prefix(w, cond, body, k) is Some,
+        ({
+            let c = while_prefix(w, cond, body, k)->0;
+            let (b, w1) = sem_bool(c, cond);
+            b == Ok::<bool, Error>(true) && sem_scoped(w1, Seq::empty(), body).0 == Ok::<Escape, Error>(Escape::Return{value, loc})
+        }),
+    ensures
+        spec_while(w, cond, body).0 == Some(Escape::Return{value, loc}),
+{
+    lemma_while_stop_here(w, cond, body, k);
+}
+// L-escape.4  in a sequence, the first statement that signals ends the sequence with that signal
+pub proof fn lemma_first_signal_wins(w: W, stmts: Seq<Stmt>, i: int)
+    requires 0 <= i < stmts.len(), !(spec_stmt(w, stmts[i]).0 == Some(Escape::None)),
+    ensures spec_stmts(w, stmts, i) == spec_stmt(w, stmts[i]),
+{
+}
+"""
+
+
 def located_spec(variants):
     """C17: `located(e)`: e is AtLoc, or a context wrapper (any variant carrying `source: Box<Error>`)
     around a located error.  Generated from the extracted enum on every run."""
@@ -576,6 +663,7 @@ def build(read):
         fns["eval_prog"],
         fns["eval_stmts_with_scope_stack"],
         fns["eval_stmt"],
+        LEMMAS,
         "} // verus!\nfn main() {}",
     ])
     return b
